@@ -67,7 +67,7 @@ QueriesOK(m, st) ==
   /\ st.info_oob = Enoent /\ st.info_max = Enoent                    \* get_info past the last kind
   /\ st.info_bf = Einval                                             \* get_info with a flag
   /\ st.gbc_null = Einval /\ st.gbc_bf = Einval                      \* get_by_cpuset(NULL), with a flag
-  /\ SetExact(m, st.topo)
+  /\ SetExact(m, st.topo) /\ SetExact(m, st.allowed)
   /\ IF NAtoms(m) <= FullNA
      THEN /\ Len(st.gr) = Pow2(NAtoms(m)) /\ Len(st.ge) = Len(st.gr)
           /\ \A k \in DOMAIN st.gr : GbcRel(pk, MaskSet(m, k - 1), st.gr[k], ErrName(st.ge[k]))
@@ -129,7 +129,7 @@ TRegister ==
         /\ cur' = e.st
   /\ UNCHANGED <<am, topo>>
 
-\* hwloc_topology_restrict(set, 0) on a topology without disallowed PUs
+\* hwloc_topology_restrict(set, 0): EINVAL (and nothing changes) when no allowed PU would remain
 TRestrict ==
   /\ IsEvent("restrict")
   /\ LET e == T[l]
@@ -137,12 +137,13 @@ TRestrict ==
      IN /\ S \subseteq AtomsOf(am)
         /\ e.flags = 0
         /\ SetExact(am, e.after) /\ SetAtoms(am, e.after) = S
-        /\ IF S \cap topo = {}
+        /\ IF S \cap SetAtoms(am, cur.allowed) = {}
            THEN /\ e.ret = Einval
                 /\ e.st = cur
                 /\ UNCHANGED <<req, topo, mk>>
            ELSE /\ e.ret = OK0
                 /\ topo' = topo \cap S
+                /\ SetAtoms(am, e.st.allowed) = SetAtoms(am, cur.allowed) \cap S
                 /\ req' = ReqRestrict(req, topo')
                 /\ StateOK(am, e.st, req', topo')
                 /\ mk' = Model(RestrictDo(mk.ks, topo'))
